@@ -22,6 +22,20 @@ func OracleC09(tr *Trace) Verdict {
 		}
 		return 1 << 60
 	}
+	// a watch the election opened is part of its background activity: every watcher must have been stopped
+	// by the library itself once every election is stopped and operations in flight have returned
+	// (teardown stops whatever the plan left running and waits 7s before it looks)
+	for _, obj := range tr.UnstoppedWatchObjs {
+		inst := 0
+		for _, a := range tr.APIs {
+			if a.Obj == obj {
+				inst = a.Inst
+			}
+		}
+		v.Viols = append(v.Viols, Viol{At: tr.End, Sig: "C09 watcher-never-stopped",
+			Msg: fmt.Sprintf("%s#%d: a watcher returned to the election by Watch() was never stopped, although the election was stopped and all of its operations had returned", p.Instances[inst].ID, obj)})
+		break
+	}
 	inFlightStops, timerStops := 0, 0
 	for _, a := range tr.APIs {
 		if a.Call != "Stop" && a.Call != "StopWithContext" {
